@@ -3,7 +3,8 @@
     python -m harness.regen            (or /verif/bin/regen)
 
 Reads `${VERIF_REPO:-/repo}/src/socketio/*.py` with `ast` only (nothing is imported or executed),
-writes `Reserved.lean` (C13) and `Forward.lean` (C17).  Output is deterministic: the same source
+writes `Reserved.lean` (C13), `Forward.lean` (C17) and `Constants.lean` (the literal constants the
+models repeat; `Sio/Props/Glue.lean`; also reads the installed engineio package).  Output is deterministic: the same source
 gives byte-identical files, and a file whose content did not change is not rewritten, so `lake`
 does not rebuild.  Writing happens under the same lock as `bin/lk`, so a concurrent build never
 sees a half-written file.
@@ -56,7 +57,7 @@ def write_if_changed(path, text):
 def run(repo=None, out_dir=None):
     """-> {filename: changed?}.  Raises TranslatorError when a file cannot be produced; the files
     that can be produced are still written."""
-    from . import translate_reserved, translate_forward
+    from . import translate_reserved, translate_forward, translate_constants
     repo = repo or os.environ.get('VERIF_REPO', '/repo')
     out_dir = out_dir or GEN_DIR
     os.makedirs(out_dir, exist_ok=True)
@@ -64,7 +65,8 @@ def run(repo=None, out_dir=None):
     fcntl.flock(lock, fcntl.LOCK_EX)
     changed, errors = {}, []
     try:
-        for name, mod in (('Reserved.lean', translate_reserved), ('Forward.lean', translate_forward)):
+        for name, mod in (('Reserved.lean', translate_reserved), ('Forward.lean', translate_forward),
+                          ('Constants.lean', translate_constants)):
             try:
                 text = mod.generate(repo)
             except TranslatorError as e:
